@@ -92,6 +92,18 @@ def run(ctx):
                 text = text + "\ntemplate Broken( { é\n"           # parse error after multi-byte text
             if k % 10 == 8:
                 text = text + "\n/* é unterminated"
+            def before_main(t, extra):
+                i = t.rfind("component main")
+                return t + extra if i < 0 else t[:i] + extra + t[i:]
+            if k % 10 == 6:
+                i = text.rfind("component main")
+                text = (text if i < 0 else text[:i]) + "\n/* é */ template Open%d() {\n  signal input in_%d" % (k, k)     # the file ends inside a definition
+            if k % 10 == 5:
+                # comparator inputs that also feed a range check: the finding is about the LessThan input, not about the Num2Bits one
+                text = before_main(text, "\ntemplate LessThan(n) { signal input in[2]; signal output out; out <== in[0] - in[1] + n; }\n"
+                               "template Num2Bits(n) { signal input in; signal output out[n]; for (var i = 0; i < n; i++) { out[i] <== in; } }\n"
+                               "template Cmp%d(n) { signal input a; signal input b; signal output ok;\n  component nb = Num2Bits(n);\n  nb.in <== a;\n"
+                               "  component lt = LessThan(n);\n  lt.in[0] <== a;\n  lt.in[1] <== b;\n  ok <== lt.out;\n}\n" % k)
             p = wd.write("p%d/main.circom" % k, text.encode("utf-8"))
             reqs2.append({"inputs": [p], "libs": [], "curve": "BN254"})
             metas.append((p, text))
@@ -112,6 +124,19 @@ def run(ctx):
                         for ident in re.findall(r"`([A-Za-z_$][A-Za-z_$0-9]*)`", r["message"] or ""):
                             if not re.search(r"(?<![A-Za-z_$0-9])%s(?![A-Za-z_$0-9])" % re.escape(ident), under):
                                 why = "text under the primary label (%r) does not mention `%s` named in the message" % (under[:80], ident)
+                    if why is None and l in r["primary"]:
+                        m_at = re.search(r"EOF found at (\d+)", r["message"] or "")
+                        if m_at and not (l["start"] == l["end"] == int(m_at.group(1))):
+                            why = "the message speaks about the end of the file (offset %s) but the label is %d..%d" % (m_at.group(1), l["start"], l["end"])
+                        if "end of file" in (r["message"] or "").lower() and not m_at and l["end"] < len(sources[p].rstrip()):
+                            why = "the message speaks about the end of the file but the label %d..%d is not there (%d bytes)" % (l["start"], l["end"], len(sources[p]))
+                        if (r["message"] or "").startswith("Inputs to `LessThan`"):
+                            # the statement under the label assigns an input of a LessThan component
+                            line_start = sources[p].rfind(b"\n", 0, l["start"]) + 1
+                            line_end = sources[p].find(b"\n", l["end"])
+                            line = sources[p][line_start:line_end if line_end >= 0 else None].decode("utf-8", "replace")
+                            if not re.search(r"\blt\b", line):
+                                why = "the finding is about an input of `LessThan` but the primary label is on %r" % line.strip()[:80]
                     if why:
                         bad_labels += 1
                         ctx.violation("bad-label %s" % r["id"],
